@@ -1255,3 +1255,65 @@ def report_skip_event_multi(ctx, rule):
                  input="@depends('mid.left.x', 'mid.right.x', watch=True) def cb; obj.mid.param.update(left=L(x=same), right=R(x=other)) -> cb not called")
     else:
         ctx.ok(rule, f, f.node, "depends model: _skip_event on two replacement events of one batch: skipped iff no compared value differs (%d cases)" % n)
+
+
+# --------------------------------------------------------------------------------------------------
+# (l) how many watchers serve one method on ONE object
+# --------------------------------------------------------------------------------------------------
+def watchers_per_object(ctx):
+    """A batch (or update) on an object queues watchers of THAT object and runs each queued watcher once: a method runs once
+    per batch only if one watcher serves it on the object.  Parameters._update_deps(init=True) interpreted for
+      * method m declared depends('a', 'a:bounds')               (two KINDS of dependency on the same object),
+      * method k declared depends('c', 'sub.x')                  (a plain dependency and the root of a path on the same object);
+    the watchers installed on the instance itself are counted per method."""
+    import collections
+    f = ctx.repo.func(P + "Parameters._update_deps")
+    top, sub = Obj("instance"), Obj("sub_object")
+    for o in (top, sub):
+        o.attrs["param"] = Obj("param_of_" + o.name, owner_obj=o, _state_watchers=[])
+    the_cls, sub_cls = Obj("Cls"), Obj("SubCls")
+    c_a = Obj("dep_a_value", inst=None, cls=the_cls, what="value", name="a")
+    c_ab = Obj("dep_a_bounds", inst=None, cls=the_cls, what="bounds", name="a")
+    c_c = Obj("dep_c_value", inst=None, cls=the_cls, what="value", name="c")
+    dyn = Obj("dynamic_dep_sub.x", spec="sub.x")
+    table = [("m", False, False, [c_a, c_ab], []), ("k", False, False, [c_c], [dyn])]
+    top.attrs["_param__private"] = Obj("private", dynamic_watchers=collections.defaultdict(list))
+    top.attrs["m"], top.attrs["k"] = Obj("bound_m", __name__="m"), Obj("bound_k", __name__="k")
+    top.attrs["__type__"] = Obj("Cls", param=Obj("class_namespace", _depends={"watch": table}))
+    ns = Obj("ns", self=top)
+    installed = []
+
+    def hook(fn, args, kwargs):
+        if fn == "type" and args and args[0] is top:
+            return top.attrs["__type__"]
+        if fn == "_resolve_mcs_deps" and len(args) == 3:
+            out = [Obj("resolved_" + d.name, inst=top, cls=d.attrs["cls"], what=d.attrs["what"], name=d.attrs["name"]) for d in args[1]]
+            for d in args[2]:
+                out.append(Obj("resolved_root_of_" + d.name, inst=top, cls=the_cls, what="value", name="sub"))
+                out.append(Obj("resolved_leaf_of_" + d.name, inst=sub, cls=sub_cls, what="value", name="x"))
+            return out
+        if fn == "self_._watch_group":
+            g = args[3]
+            w = Obj("watcher_%d" % len(installed), inst=g[0][1].attrs["inst"], cls=g[0][1].attrs["cls"], what=g[0][1].attrs["what"],
+                    parameter_names=tuple(x[1].attrs["name"] for x in g), method=args[1])
+            installed.append(w)
+            return w
+        if fn == "getattr" and len(args) == 2 and args[0] is top and args[1] in ("m", "k"):
+            return top.attrs[args[1]]
+        return NotImplemented
+    it = Interp(ctx.hier, dyn=P + "Parameters", inline=lambda m: False, call_hook=hook)
+    try:
+        outs = it.run_all(f, {"self_": ns, "attribute": None, "init": True})
+    except Unsupported as e:
+        raise AnalysisError("depends model: absint cannot interpret Parameters._update_deps: %s" % e)
+    if len(outs) != 1 or outs[0].imprecise or outs[0].kind != "return":
+        raise AnalysisError("depends model: Parameters._update_deps is not interpretable precisely (%s)" % (outs[0].notes[:2] if outs else "no outcome"))
+    findings = []
+    on_top = {meth: [w for w in installed if w.attrs["method"] == meth and w.attrs["inst"] is top] for meth in ("m", "k")}
+    if len(on_top["m"]) > 1:
+        findings.append(("one-watcher-per-kind", "a method declared depends('a', 'a:bounds', watch=True) is served by %d watchers on its own object (%s): a batch that changes the value and the bounds "
+                                                 "of `a` queues both and runs the method twice" % (len(on_top["m"]), ", ".join("%s:%s" % (w.attrs["parameter_names"], w.attrs["what"]) for w in on_top["m"]))))
+    if len(on_top["k"]) > 1:
+        findings.append(("plain-and-path-watchers", "a method declared depends('c', 'sub.x', watch=True) is served by %d watchers on its own object (one for its plain dependencies, one for the root "
+                                                    "of the path): update(c=.., sub=..) queues both and runs the method twice" % len(on_top["k"])))
+    return 1, findings
